@@ -1,6 +1,6 @@
 #!/bin/bash
 # prepares worktrees + prompts for a new seed round
-for i in $(seq -w 1 20); do
+for i in ${SEEDPROPS:-$(seq -w 1 20)}; do
   pid=C$i
   rm -rf /tmp/seedout-$pid; mkdir -p /tmp/seedout-$pid
   git -C /repo worktree remove --force /tmp/wt-$pid >/dev/null 2>&1; rm -rf /tmp/wt-$pid
